@@ -103,6 +103,8 @@ func Unmarshal(data []byte, v any) error {
 	defer ds.Put(d)
 	//var d decodeState
 	d.useNumber = true
+	// scan.reset by design doesn't set bytes to zero
+	d.scan.bytes = 0
 	err := checkValid(data, &d.scan)
 	if err != nil {
 		return err
@@ -127,6 +129,8 @@ func UnmarshalWithKeys(data []byte, v any) ([]string, error) {
 	defer ds.Put(d)
 	//var d decodeState
 	d.useNumber = true
+	// scan.reset by design doesn't set bytes to zero
+	d.scan.bytes = 0
 	err := checkValid(data, &d.scan)
 	if err != nil {
 		return nil, err
